@@ -158,6 +158,9 @@ def run(ctx):
         return 2
     thorough = ctx.tier == "thorough"
     rng = random.Random(ctx.seed)
+    # the documented code table and the documentation page of every category (Codes.tla) against src/codes/codes.go
+    import progcheck
+    progcheck.codes_table_check(ctx, {"doc", "table"})
     exe = ctx.binary("gogreement")
     progs = programs(rng, 6 if thorough else 1)
     events = []
